@@ -177,11 +177,17 @@ def main():
           # a quantized layer whose bias is NOT quantized: the reference width applies to that tensor
           i2 = L.Input((5,))
           qm = tf.keras.Model(i2, qkeras.QDense(3, kernel_quantizer="quantized_bits(4,0,1)", bias_quantizer=None, name="dq")(i2))
-        tb = ForgivingFactorBits(8, 8, 2, config={"default": ["parameters", "activations"]})
+        # per-class component selection: an explicitly empty list switches a class off, "parameters" only counts weights
+        cfgsel = [{"default": ["parameters", "activations"]},
+                  {"default": ["parameters", "activations"], "InputLayer": [], "QActivation": [], "Activation": []},
+                  {"default": ["parameters"], "QDense": ["parameters", "activations"], "Dense": ["parameters", "activations"]}][(len(events) + int(manual)) % 3]
+        tb = ForgivingFactorBits(8, 8, 2, config=cfgsel)
         total = tb.compute_model_size(qm)[0]
         elems, bits = [], []
         for lay in qm.layers:
           cls = lay.__class__.__name__
+          sel = cfgsel.get(cls, cfgsel["default"])
+          e0, b0 = len(elems), len(bits)
           if cls in ("QConv2D", "QDense"):
             for q, w in zip(lay.get_quantizers(), lay.get_weights()):
               elems.append(int(np.prod(w.shape)))
@@ -212,6 +218,14 @@ def main():
               elems.append(out); bits.append(int(getattr(a, "bits", 8)))
           elif cls == "InputLayer":
             elems.append(int(np.prod(lay.output.shape[1:]))); bits.append(8)
+          # keep only the selected components of this layer (weights come first, the activation tensor last)
+          nw = len(lay.get_weights()) if cls in ("QConv2D", "QDense", "Conv2D", "Dense") else 0
+          we, wb, ae, ab = elems[e0:e0 + nw], bits[b0:b0 + nw], elems[e0 + nw:], bits[b0 + nw:]
+          del elems[e0:], bits[b0:]
+          if "parameters" in sel:
+            elems += we; bits += wb
+          if "activations" in sel:
+            elems += ae; bits += ab
         events.append({"kind": "size", "total": int(total), "elems": elems, "bits": bits, "manual": int(manual)})
   # the whole pipeline: hm.build(hp) on a compiled reference model -> trial size -> bonus -> score / trial_size metrics
   if shard == 1 % nshards:
